@@ -109,6 +109,13 @@ class SamplerRun:
             s = elfi.SMC(model, spec['disc'], output_names=outs, **kw)
         elif meth == 'adsmc':
             s = elfi.AdaptiveDistanceSMC(model, spec['disc'], output_names=outs, **kw)
+        elif meth == 'atsmc':
+            from elfi.methods.density_ratio_estimation import DensityRatioEstimation
+            s = elfi.AdaptiveThresholdSMC(
+                model, spec['disc'], output_names=outs,
+                densratio_estimation=DensityRatioEstimation(n=8, epsilon=0.001, max_iter=200,
+                                                            abs_tol=0.01, fold=5, optimize=False),
+                **kw)
         else:
             raise ValueError(meth)
         self.sampler = s
